@@ -1,6 +1,7 @@
 use crate::engine::Property;
 
 pub mod c01;
+pub mod c02_fmt;
 pub mod c03;
 pub mod c04;
 pub mod c05;
